@@ -3,10 +3,10 @@
 # checks: demo passes on the pinned tree; with the patch the demo fails and the whole existing suite passes.
 set -u
 P=$1; K=$2
-SRC=/tmp/mutout/$P
+SRC=${MUT_SRC:-/tmp/mutout}/$P
 WT=/tmp/confirm_${P}_${K}
 export GOFLAGS=-mod=mod GOPROXY=off GOSUMDB=off GOTOOLCHAIN=local
-BASE=f23820b
+BASE=${MUT_BASE:-f23820b}
 meta=$SRC/${P}_${K}_meta.json
 pkg=$(python3 -c "import json,sys; print(json.load(open('$meta')).get('demo_pkg_dir','.'))")
 pkg=${pkg#./}; pkg=${pkg%/}; [ -z "$pkg" ] && pkg=.
